@@ -403,6 +403,19 @@ def has_deep(x):
 NAMES = ["V%d" % i for i in range(NV)] + ["H%d" % i for i in range(NH)]
 
 
+def hang_labels(case):
+    """labels of a case computed from the model alone (used when the VM never answers: a cycle built through a hashmap is the known finding)"""
+    heap = Heap()
+    labs = set()
+    for op in case["ops"]:
+        try:
+            _t, _r, l = heap.apply(op)
+        except Exception:
+            break
+        labs |= l
+    return sorted(labs)
+
+
 def check(case, env):
     r = env.runner()
     r.new(vm=0, ops="full")
